@@ -17,7 +17,8 @@ STATIC = ["a", "b", "ab", "users", "v1", "x"]
 PNAMES = ["id", "x", "y", "name", "k"]
 STD = ["GET", "POST", "PUT", "DELETE", "PATCH", "HEAD", "OPTIONS", "CONNECT", "TRACE"]
 CUSTOM = ["PURGE", "LOCK", "BREW", "HEY"]
-DOMAINS = ["a.com", "b.com", "api.a.com", "{sub}.a.com", "{sub}.b.com", "{*any}.api.a.com", "{t}x.b.com", "c.org"]
+# the last one has upper-case letters in literal labels: guards are kept as written and compared as written
+DOMAINS = ["a.com", "b.com", "api.a.com", "{sub}.a.com", "{sub}.b.com", "{*any}.api.a.com", "{t}x.b.com", "c.org", "Api.D.org"]
 VALUES = ["v", "ab", "a", "zab", "q1", "b.json", "7"]
 
 
